@@ -1006,6 +1006,8 @@ class Ctx:
                 binds.append((v, f"(if {c} then {tx} else {ty})"))
                 return self.split(v, xt), xt
             return [f"(if {c} then {tup(x)} else {tup(y)})"] if len(x) == 1 else self.fail("tuple ifexp", e), xt
+        if isinstance(e, ast.List) and not e.elts:
+            return ["([] : List Int)"], ("list", "int")
         if isinstance(e, ast.Tuple):
             terms, types = [], []
             for el in e.elts:
@@ -1203,6 +1205,10 @@ class Ctx:
                     parts.append(f"{terms[0]} = true")
                 else:
                     if lt_ == "str" or rt_ == "str":
+                        if lt_ == rt_ == "str" and type(op) in (ast.Eq, ast.NotEq):
+                            parts.append(f"{left[0]} {CMPOPS[type(op)]} {r[0]}")
+                            left, lt_ = r, rt_
+                            continue
                         self.fail("string comparison", e)
                     a = left[0] if lt_ == "int" else f"(if {left[0]} then 1 else 0)"
                     b = r[0] if rt_ == "int" else f"(if {r[0]} then 1 else 0)"
@@ -1298,6 +1304,8 @@ class Ctx:
                 return self.with_binds(binds, f"let {v} := {tup(terms)}\n" + self.stmts(rest, k))
             if isinstance(target, ast.Name):
                 name = target.id
+                if name in getattr(self, "nonneg", ()):
+                    self.nonneg = set(self.nonneg) - {name}
                 if isinstance(t, tuple) and t[0] == "rec" and len(terms) > 1:
                     names = [f"{name}_{f.lstrip('_')}" for f in RECORDS[t[1]].fields]
                     lets = "\n".join(f"let {n} := {x}" for n, x in zip(names, terms))
@@ -1321,11 +1329,32 @@ class Ctx:
             new = ast.Assign(targets=[s.target], value=ast.BinOp(left=ast.Name(id=s.target.id, ctx=ast.Load()),
                                                                   op=s.op, right=s.value), lineno=s.lineno)
             return self.stmts([new] + rest, k)
+        if (isinstance(s, ast.Expr) and isinstance(s.value, ast.Call) and isinstance(s.value.func, ast.Attribute)
+                and isinstance(s.value.func.value, ast.Name) and s.value.func.value.id in self.env
+                and self.env[s.value.func.value.id][1] == ("list", "int") and not s.value.keywords):
+            # T8: in-place list methods on a local list of ints
+            name, meth = s.value.func.value.id, s.value.func.attr
+            cur = self.env[name][0][0]
+            binds = []
+            if meth == "append" and len(s.value.args) == 1:
+                x = self._int(s.value.args[0], binds)
+                new = f"({cur} ++ [{x}])"
+            elif meth == "reverse" and not s.value.args:
+                new = f"(List.reverse {cur})"
+            else:
+                self.fail(f"list method .{meth}", s)
+            self.env[name] = ([name], ("list", "int"))
+            return self.with_binds(binds, f"let {name} := {new}\n" + self.stmts(rest, k))
+        if isinstance(s, ast.While):
+            return self.while_loop(s, ss, rest, k)
         if isinstance(s, ast.If):
             binds = []
             c = self.cond(s.test, binds)
             saved = dict(self.env)
             body_term = terminates(s.body)
+            if (body_term and not s.orelse and isinstance(s.test, ast.Compare) and len(s.test.ops) == 1 and isinstance(s.test.ops[0], ast.Lt)
+                    and isinstance(s.test.left, ast.Name) and isinstance(s.test.comparators[0], ast.Constant) and s.test.comparators[0].value == 0):
+                self.nonneg = set(getattr(self, "nonneg", set())) | {s.test.left.id}     # holds in the continuation
             else_term = terminates(s.orelse) if s.orelse else False
             cont = (lambda: self.stmts(rest, k)) if rest or k else None
             self.env = dict(saved)
@@ -1336,6 +1365,78 @@ class Ctx:
             self.env = dict(saved) if (body_term and (else_term or not s.orelse)) else self.env
             return self.with_binds(binds, f"if {c} then\n{indent(a, 1)}\nelse\n{indent(b, 1)}")
         self.fail(f"statement {type(s).__name__}", s)
+
+    def while_loop(self, s: ast.While, all_stmts, rest, k) -> str:
+        """T8: `while V != 0: <pure body>; V >>= c` (c a positive constant) with V known to be non-negative -> `Py.whileFuel`
+        over the loop-carried variables; fuel = bit length of V, the number of iterations of such a loop."""
+        if s.orelse:
+            self.fail("while/else", s)
+        t = s.test
+        if not (isinstance(t, ast.Compare) and len(t.ops) == 1 and isinstance(t.ops[0], ast.NotEq) and isinstance(t.left, ast.Name)
+                and isinstance(t.comparators[0], ast.Constant) and t.comparators[0].value == 0 and t.left.id in self.env
+                and self.env[t.left.id][1] == "int"):
+            self.fail("while loop: only `while v != 0` over an int variable is supported", s)
+        v = t.left.id
+        def is_variant(x):
+            return (isinstance(x, ast.AugAssign) and isinstance(x.op, ast.RShift) and isinstance(x.target, ast.Name) and x.target.id == v
+                    and isinstance(x.value, ast.Constant) and isinstance(x.value.value, int) and not isinstance(x.value.value, bool)
+                    and x.value.value >= 1)
+
+        def writes_v(x):
+            return any((isinstance(n, (ast.Assign, ast.AugAssign, ast.AnnAssign, ast.NamedExpr, ast.For, ast.With, ast.Delete))
+                        and any(isinstance(t, ast.Name) and t.id == v and isinstance(t.ctx, (ast.Store, ast.Del)) for t in ast.walk(n)))
+                       for n in ast.walk(x))
+        variants = [x for x in s.body if is_variant(x)]
+        if len(variants) != 1 or any(writes_v(x) for x in s.body if x is not variants[0]):
+            self.fail(f"while loop: the body must contain exactly one top-level `{v} >>= <positive constant>` (the variant) and no other "
+                      f"assignment to `{v}`", s)
+        if v not in getattr(self, "nonneg", set()):
+            self.fail(f"while loop: `{v}` is not known to be non-negative (no preceding `if {v} < 0: raise`)", s)
+
+        def assigned(stmts, acc):
+            for x in stmts:
+                if isinstance(x, ast.Assign) and len(x.targets) == 1 and isinstance(x.targets[0], ast.Name):
+                    acc.append(x.targets[0].id)
+                elif isinstance(x, ast.AugAssign) and isinstance(x.target, ast.Name):
+                    acc.append(x.target.id)
+                elif isinstance(x, ast.Expr) and isinstance(x.value, ast.Call) and isinstance(x.value.func, ast.Attribute) \
+                        and isinstance(x.value.func.value, ast.Name):
+                    acc.append(x.value.func.value.id)
+                elif isinstance(x, ast.If):
+                    assigned(x.body, acc); assigned(x.orelse, acc)
+                elif isinstance(x, ast.Pass):
+                    pass
+                else:
+                    self.fail(f"while loop body: statement {type(x).__name__}", x)
+            return acc
+        carried = []
+        for n in assigned(s.body, []):
+            if n in self.env and n not in carried:
+                carried.append(n)
+        for n in carried:
+            if len(self.env[n][0]) != 1 or self.env[n][1] not in ("int", ("list", "int")):
+                self.fail(f"while loop: carried variable {n} of type {self.env[n][1]}", s)
+        # canonical order of the loop state (independent of the order of the statements): ints, then lists, each by name
+        carried.sort(key=lambda n: (0 if self.env[n][1] == "int" else 1, n))
+        types = [self.env[n][1] for n in carried]
+        sigma = lean_type(types[0]) if len(carried) == 1 else "(" + " × ".join(lean_type(x) for x in types) + ")"
+        pat = carried[0] if len(carried) == 1 else "(" + ", ".join(carried) + ")"
+        init = tup([self.env[n][0][0] for n in carried]) if len(carried) == 1 else "(" + ", ".join(self.env[n][0][0] for n in carried) + ")"
+        fuel = f"(Py.bitLen (Int.toNat {self.env[v][0][0]}))"
+        saved_env, saved_raises = dict(self.env), self.raises
+        self.raises = False
+        for n, ty in zip(carried, types):
+            self.env[n] = ([n], ty)
+        body = self.stmts(list(s.body), lambda: pat)
+        if self.raises:
+            self.fail("while loop body must be pure (it can raise)", s)
+        self.raises = saved_raises
+        self.env = saved_env
+        for n, ty in zip(carried, types):
+            self.env[n] = ([n], ty)
+        self.nonneg = set(getattr(self, "nonneg", set())) - set(carried) | ({v} if v in carried else set())
+        return (f"match (Py.whileFuel {fuel} (fun ({pat} : {sigma}) => decide ({v} ≠ (0 : Int)))\n"
+                f"    (fun ({pat} : {sigma}) =>\n{indent(body, 3)}) ({init} : {sigma})) with\n| {pat} =>\n" + self.stmts(rest, k))
 
     def error_of(self, s: ast.Raise) -> str:
         exc = s.exc
